@@ -27,11 +27,26 @@ def entry_fns(facts):
     e.append(method(facts, T_ITER, "IncomingRequests", "next"))
     # Read / Write / Drop impls of every local type (they may sit inside a Request's reader/writer)
     for i in facts.impls:
-        if i["trait"] in (T_READ, T_WRITE, T_DROP) and i["self_adt"] and i["self_adt"] in facts.adts:
+        if i["trait"] in (T_READ, T_WRITE) and i["self_adt"] and i["self_adt"] in facts.adts:
             for it in i["items"]:
                 f = facts.fn_opt(it)
                 if f:
                     e.append(f)
+    # Drop impls that run when a Request, a queued message or a connection goes away
+    seen = set()
+    work = [i["id"] for i in facts.instances if i and i["kind"] == "drop_glue" and i.get("drop_adt") in (REQ, CC, "Message")
+            and not i.get("drop_ty", "").startswith("std::")]
+    while work:
+        x = work.pop()
+        if x in seen:
+            continue
+        seen.add(x)
+        inst = facts.instances[x]
+        if inst["kind"] == "item" and inst["def"].endswith("as std::ops::Drop>::drop") and inst["def"] in facts.local_fns:
+            e.append(facts.fns[inst["def"]])
+        for bb, kind, to, ed in facts.inst_callees(inst):
+            if to is not None and (facts.instances[to]["kind"] == "drop_glue" or facts.instances[to]["def"].endswith("as std::ops::Drop>::drop")):
+                work.append(to)
     return e
 
 
@@ -101,7 +116,8 @@ def panic_sites(facts, f):
             continue
         t = f.term(bb)
         if t["t"] == "assert":
-            out.append((bb, "assert:" + t["kind"], t["msg"][:60], t))
+            k = re.split(r"[ ({]", t["kind"])[0]
+            out.append((bb, "assert:" + k, t["msg"][:60], t))
         elif t["t"] == "call":
             n = call_name(t)
             c = t.get("callee") or ""
